@@ -8,6 +8,7 @@ package fosite
 import (
 	"context"
 	"net/http"
+	"net/url"
 )
 
 // verifEnv decides how long the history is and supplies the HTTP requests (any request_uri, any client_id).
@@ -15,11 +16,20 @@ type verifEnv interface {
 	More() bool
 	HTTPRequest() *http.Request
 	AuthorizeRequest() *AuthorizeRequest
+	Form() url.Values
 }
 
 // verifHistoryPARUse: any sequence of authorization requests that may or may not name a pushed authorization request.
 func verifHistoryPARUse(ctx context.Context, env verifEnv, f *Fosite, uri0 string) {
 	for env.More() {
 		_, _ = f.authorizeRequestFromPAR(ctx, env.HTTPRequest(), env.AuthorizeRequest())
+	}
+}
+
+// verifHistoryClientAuth: any sequence of client authentications by the default strategy (any credentials, any assertion, any
+// jti). A custom strategy from the configuration is outside what can be said.
+func verifHistoryClientAuth(ctx context.Context, env verifEnv, f *Fosite, jti0 string) {
+	for env.More() {
+		_, _ = f.DefaultClientAuthenticationStrategy(ctx, env.HTTPRequest(), env.Form())
 	}
 }
